@@ -455,6 +455,8 @@ def check(P, R, tier):
     import monthdecode
     nm = monthdecode.run(R, tu, "RF2-mon")
     R.floor("RF2-mon", "decoded points of the month / year adders and fixups", nm, 30000)
+    nd = monthdecode.run_dt(R, P, "RF2-mon")
+    R.floor("RF2-mon", "decoded compositions of month / year steps on date-times", nd, 400)
     # a sign read apart from the number is applied by negating the parsed duration
     import durdecode
     nn = durdecode.check(R, P, "RF2-neg")
